@@ -167,6 +167,8 @@ struct LiveObs {
     /// after Connected both ends open channels of their own: ids (offerer concurrent, answerer concurrent,
     /// offerer sequential, answerer sequential) and the four deliveries on the channel with the peer's label
     dc2_ids: Vec<u16>, dc2: Vec<(&'static str, Result<(), String>)>,
+    /// concurrent media + data phase: (oracle kind:direction, result) — empty when the point does not run it
+    conc: Vec<(&'static str, Result<(), String>)>, conc_requested: bool,
     rtp_oa: Vec<Result<(), String>>, rtp_ao: Vec<Result<(), String>>,
     srtp_fn: Vec<(String, String)>,
     connect_ms: u128,
@@ -202,7 +204,13 @@ fn sdp_facts(d: &SessionDescription) -> (bool, bool, usize, String, Option<Vec<u
 const T_CONNECT: Duration = Duration::from_secs(12);
 const T_MSG: Duration = Duration::from_secs(10);
 
-async fn exec_live(cfg: Cfg, with_srtp_fn: bool) -> LiveObs {
+/// which points run the concurrent-traffic phase: data + media on a WebRTC pair; always on the framing-sensitive
+/// transport (ICE-TCP, RFC 4571), on the UDP transports in the thorough tier
+fn runs_concurrent(cfg: &Cfg, thorough: bool) -> bool {
+    cfg.mode == Mode::WebRtc && cfg.mix.has_data() && cfg.mix.n_media() > 0 && (cfg.ice == IceOpt::Tcp || thorough)
+}
+
+async fn exec_live(cfg: Cfg, with_srtp_fn: bool, conc: bool) -> LiveObs {
     let mut o = LiveObs::default();
     let mut p = Pair::create(cfg, &Knobs::default());
     let t0 = Instant::now();
@@ -273,6 +281,16 @@ async fn exec_live(cfg: Cfg, with_srtp_fn: bool) -> LiveObs {
         for (i, m) in p.ans.media.iter().enumerate() {
             o.rtp_ao.push(rtp_roundtrip(m, &p.off.pc, format!("verif-c10-ao-{i}-payload").as_bytes(), T_MSG).await);
         }
+        // concurrent media + data (seed C10-d): after the sequential exchanges above
+        o.conc_requested = conc;
+        if conc && o.data_oa == Some(Ok(())) && o.data_ao == Some(Ok(())) {
+            let (doa, dao) = concurrent_media_and_data(&p, 300, 900, Duration::from_secs(15)).await;
+            o.conc.push(("data-not-delivered:o->a", doa)); o.conc.push(("data-not-delivered:a->o", dao));
+            // … and intact RTP keeps arriving afterwards
+            let ra = match p.off.media.first() { Some(m) => rtp_roundtrip_skipping(m, &p.ans.pc, b"verif-c10-after-conc-oa", T_MSG, Some(CONC_MEDIA)).await, None => Ok(()) };
+            let rb = match p.ans.media.first() { Some(m) => rtp_roundtrip_skipping(m, &p.off.pc, b"verif-c10-after-conc-ao", T_MSG, Some(CONC_MEDIA)).await, None => Ok(()) };
+            o.conc.push(("rtp-not-delivered:o->a", ra)); o.conc.push(("rtp-not-delivered:a->o", rb));
+        }
         o.extra_o = p.off.pc.verif_lc_extra_transport_counts();
         o.extra_a = p.ans.pc.verif_lc_extra_transport_counts();
         // installed keys / profile
@@ -309,14 +327,15 @@ fn bits(v: &[Result<(), String>]) -> String { if v.is_empty() { "-".into() } els
 fn opt_bit(v: &Option<Result<(), String>>) -> &'static str { match v { None => "-", Some(Ok(())) => "1", Some(Err(_)) => "0" } }
 
 fn live_lines(cfg: &Cfg, o: &LiveObs) -> (String, String) {
-    let input = format!("{} {} {} {} {} {} {} {} {} {}", mode_letter(cfg.mode), cfg.mix.n_media(), cfg.mix.has_data() as u8,
+    let input = format!("{} {} {} {} {} {} {} {} {} {} {}", mode_letter(cfg.mode), cfg.mix.n_media(), cfg.mix.has_data() as u8,
         cfg.legacy as u8, cfg.mux_require as u8,
         o.mat.as_ref().map(|m| hex(m)).unwrap_or_else(|| "-".into()),
         o.ks_o.as_ref().map(|m| hex(m)).unwrap_or_else(|| "-".into()),
         o.ks_a.as_ref().map(|m| hex(m)).unwrap_or_else(|| "-".into()),
-        o.suite_o, o.suite_a) + &format!(" # {}", cfg.text());
+        o.suite_o, o.suite_a, if o.conc_requested { "c1" } else { "c0" }) + &format!(" # {}", cfg.text());
+    let conc = if o.conc.is_empty() { "-".to_string() } else { o.conc.iter().map(|(_, r)| if r.is_ok() { '1' } else { '0' }).collect::<String>() };
     let dc2 = if o.dc2.is_empty() { "-".to_string() } else { format!("{}:{}", o.dc2_ids.iter().map(|i| i.to_string()).collect::<Vec<_>>().join("."), o.dc2.iter().map(|(_, r)| if r.is_ok() { '1' } else { '0' }).collect::<String>()) };
-    let out = format!("conn={} roles={}/{} setup={}/{} profile={}/{} keys={}/{} bundle={}/{} mux={}/{} ports={}/{} extra={}.{}/{}.{} data={}/{} rtp={}/{} dc2={dc2}",
+    let out = format!("conn={} roles={}/{} setup={}/{} profile={}/{} keys={}/{} bundle={}/{} mux={}/{} ports={}/{} extra={}.{}/{}.{} data={}/{} rtp={}/{} dc2={dc2} conc={conc}",
         o.connected as u8, role_text(o.role_o), role_text(o.role_a), o.setup_offer, o.setup_answer,
         o.profile_o, o.profile_a, o.keys_o, o.keys_a, o.bundle_offer as u8, o.bundle_answer as u8,
         o.mux_offer as u8, o.mux_answer as u8, o.ports_offer, o.ports_answer,
@@ -337,6 +356,7 @@ fn live_oracles(cfg: &Cfg, o: &LiveObs) -> Vec<(String, String)> {
     for (d, r) in [("o->a", &o.data_oa), ("a->o", &o.data_ao)] {
         if let Some(Err(e)) = r { f.push((format!("cfg:{cls}:data-not-delivered:{d}"), e.clone())); }
     }
+    for (d, r) in &o.conc { if let Err(e) = r { f.push((format!("cfg:{cls}:{d}:concurrent-media-and-data"), e.clone())); } }
     for (d, r) in &o.dc2 { if let Err(e) = r { f.push((format!("cfg:{cls}:data-not-delivered:both-ends-create:{d}"), e.clone())); } }
     for (d, v) in [("o->a", &o.rtp_oa), ("a->o", &o.rtp_ao)] {
         for (i, r) in v.iter().enumerate() { if let Err(e) = r { f.push((format!("cfg:{cls}:rtp-not-delivered:{d}:section{i}"), e.clone())); } }
@@ -414,7 +434,7 @@ pub fn run(args: &Args) {
         match it.next() {
             Some("live") => {
                 let cfg = Cfg::parse(it.next().unwrap_or("")).expect("live <cfg text>");
-                let o = rt.block_on(exec_live(cfg, true));
+                let o = rt.block_on(exec_live(cfg, true, runs_concurrent(&cfg, true)));
                 let (i, ou) = live_lines(&cfg, &o);
                 println!("op: c10 live 0 {i}\nimpl: {ou}");
                 if let Some(e) = &o.err { println!("error: {e}"); }
@@ -616,12 +636,19 @@ pub fn run(args: &Args) {
         let mut v = pairwise(&all, &mut rng);
         run.notes.insert("pairwise_array_size".into(), serde_json::json!(v.len()));
         while v.len() < 45 { let c = *rng.pick(&all); if !v.contains(&c) { v.push(c); } }
+        // the framing-sensitive transport with concurrent media + data must be in every quick run
+        for mix in [Mix::DataAudio, Mix::DataAudioVideo] {
+            if !v.iter().any(|c| c.ice == IceOpt::Tcp && c.mix == mix) {
+                if let Some(c) = all.iter().find(|c| c.ice == IceOpt::Tcp && c.mix == mix) { v.push(*c); }
+            }
+        }
         v
     };
     run.notes.insert("lattice_valid_points".into(), serde_json::json!(all.len()));
     run.notes.insert("scheduling_lag_note".into(), serde_json::json!("every live time bound (gathering 5 s, Connected 12 s, channel / message / RTP 10 s) is stretched by the scheduling lag measured continuously on the harness runtime (how late a 100 ms sleep fires; factor 1.0 on an idle host, capped at 5.0); messages quote the nominal bound"));
     run.notes.insert("lattice_points_run".into(), serde_json::json!(points.len()));
     let par = 8usize;
+    let thorough = args.tier_thorough;
     let t0 = Instant::now();
     let results: Vec<(Cfg, LiveObs)> = rt.block_on(async {
         let sem = Arc::new(tokio::sync::Semaphore::new(par));
@@ -631,7 +658,8 @@ pub fn run(args: &Args) {
             hs.push(tokio::spawn(async move {
                 let _p = sem.acquire_owned().await.unwrap();
                 // the function-level setup_srtp stream on a subset (it discards the connection's transport)
-                let mut o = exec_live(c, i % 3 == 0).await;
+                let conc = runs_concurrent(&c, thorough);
+                let mut o = exec_live(c, i % 3 == 0, conc).await;
                 // Retry ONLY a pure timeout (busy host: a handshake retransmission can exceed the bound). A
                 // definite failure (peer state Failed / an error reason / wrong roles or keys / altered payload)
                 // is reported from the first attempt; every retried first attempt is counted in the evidence.
@@ -641,7 +669,7 @@ pub fn run(args: &Args) {
                 // never retry the points whose time-out IS the listed known finding (Srtp, two non-BUNDLE
                 // sections): the retry counter then counts unexpected first-attempt time-outs only
                 let known_point = c.mode == Mode::Srtp && c.legacy && c.mix == Mix::AudioVideo;
-                if timeout_only && !known_point { retried = true; o = exec_live(c, i % 3 == 0).await; }
+                if timeout_only && !known_point { retried = true; o = exec_live(c, i % 3 == 0, conc).await; }
                 o.retried_after_timeout = retried;
                 (c, o)
             }));
